@@ -96,7 +96,7 @@ PROPS = {
         'needs_exp': True,
     },
     'C02': {
-        'rules': [rule('G0'), rule('G5'), rule('G6'), rule('G7', drop=LOOKAHEAD), rule('G8'), rule('G1'), rule('G3'), rule('T1'), rule('T2'), rule('G17', keep=['string-literal:'])],
+        'rules': [rule('G0'), rule('G5'), rule('G6'), rule('G7', drop=LOOKAHEAD), rule('G8'), rule('G1'), rule('G3'), rule('T1'), rule('T2'), rule('G17', keep=['string-literal:']), rule('S1', keep=['VERSION', 'DIRECTIVE'])],
         'explanation': 'Necessary conditions for "accepted and classified under their production", anchored in the three stated '
                        'mechanisms. One parser per production, every production addressable: every parser is reachable from an '
                        'entry and every CST struct / enum variant (the repository\'s own copy of Annex A: 936 structs, 1048 '
@@ -105,7 +105,7 @@ PROPS = {
                        'literal alternative (G6). Keywords need a word boundary: word-shaped terminals go through keyword(), '
                        'whose every success path tests the boundary over the identifier alphabet (G7). All literal forms: the string-literal '
                        'lexeme follows the escape discipline of 5.9 (G17).',
-        'decided': 'G0 G5 G6 G7a/c G8 G17 — the token helpers mean what the grammar model assumes (ws = token then all trivia, keyword = word + boundary, brackets = both delimiters: random layout between tokens is skipped after every token); coverage, ordering and word-boundary necessary conditions; G1 G3 T1 T2 for the clause "every identifier or keyword of the source is exactly one leaf / each construct appears exactly once" (consumed outputs are kept once, children are enumerated once, in order)',
+        'decided': 'G0 G5 G6 G7a/c G8 G17 S1v — S1v: the keyword-version and directive stacks are reset by every entry before parsing, so the reserved-word set a sentence is lexed under does not depend on earlier calls (the property quantifies over programs); the token helpers mean what the grammar model assumes (ws = token then all trivia, keyword = word + boundary, brackets = both delimiters: random layout between tokens is skipped after every token); coverage, ordering and word-boundary necessary conditions; G1 G3 T1 T2 for the clause "every identifier or keyword of the source is exactly one leaf / each construct appears exactly once" (consumed outputs are kept once, children are enumerated once, in order)',
         'not_decided': 'acceptance of all Annex A sentences (needs the Annex A BNF, absent from the repository, and a PEG/CFG inclusion '
                        'check); non-literal shadowing between alternatives',
         'assumptions': ['the CST type definitions are the reference for "the Annex A node kind of a construct"'],
@@ -113,7 +113,8 @@ PROPS = {
                       'shadowed alternative or boundary-less word terminal is named. It decides necessary conditions, not language '
                       'acceptance.',
         'level_note': 'partial: language inclusion is out of reach for static analysis here',
-        'technique': 'call-graph reachability + constructor coverage over the CST type graph; ordered-choice prefix analysis',
+        'technique': 'call-graph reachability + constructor coverage over the CST type graph; ordered-choice prefix analysis; MIR state-reset inventory',
+        'needs_mir': True,
     },
     'C03': {
         'rules': [rule('X1'), rule('X2'), rule('X3'), rule('X17'), rule('X20'), rule('X14', keep=['define-record', 'write-conditional:define'])],
